@@ -3,8 +3,8 @@ import Qentem.Proofs.StrToNumPosUlp
 `b ↦ ⌊b·r/2^64⌋` with the reciprocal table). After `i` steps the code's `b`, the exact target
 `T = num·2^(64+S)` and `P = 5^E` satisfy
 
-  `b·P·2^61 ≤ T·(2^61 + i)`                      (not more than a relative `i·2^-61` above), and
-  `T·2^61 ≤ (b + i)·P·(2^61 + i)`                (not more than `i` units plus a relative `i·2^-61` below). -/
+  `b·P·2^62 ≤ T·(2^62 + i)`                      (not more than a relative `i·2^-62` above), and
+  `T·2^62 ≤ (b + i)·P·(2^62 + i)`                (not more than `i` units plus a relative `i·2^-62` below). -/
 namespace Qentem.StrToNum
 open Qentem.Generated.StrToNum
 
@@ -80,7 +80,7 @@ theorem neg_step (b r A G F P T i p2 C K : Nat) (hA : 0 < A) (hG : G = A * p2) (
 def recipFacts (i : Nat) : Bool :=
   match powerOfOneOverFive[i]?, powerOfOneOverFiveShift[i]? with
   | some r, some s =>
-    decide (r < 2 ^ 64) && decide (2 ^ s ≤ 5 ^ i) && decide (5 ^ i * 2 ^ 62 ≤ 2 ^ 64 * 2 ^ s) &&
+    decide (r < 2 ^ 64) && decide (2 ^ s ≤ 5 ^ i) && decide (5 ^ i * 2 ^ 63 ≤ 2 ^ 64 * 2 ^ s) &&
     decide (r * 5 ^ i < 2 ^ 64 * 2 ^ s + 5 ^ i) && decide (2 ^ 64 * 2 ^ s < r * 5 ^ i + 5 ^ i)
   | _, _ => false
 
@@ -88,10 +88,10 @@ theorem recipFacts_all : ∀ i, 1 ≤ i → i < 28 → recipFacts i = true := by
 
 /-- the two-sided error invariant -/
 def NegInv (b T P i : Nat) : Prop :=
-  b * P * 2 ^ 61 ≤ T * (2 ^ 61 + i) ∧ T * 2 ^ 61 ≤ (b * P + i * P) * (2 ^ 61 + i)
+  b * P * 2 ^ 62 ≤ T * (2 ^ 62 + i) ∧ T * 2 ^ 62 ≤ (b * P + i * P) * (2 ^ 62 + i)
 
 theorem NegInv.step {b T P i : Nat} (h : NegInv b T P i) (j r s : Nat) (hj1 : 1 ≤ j) (hj : j < 28)
-    (hr : powerOfOneOverFive[j]? = some r) (hs : powerOfOneOverFiveShift[j]? = some s) (hi : i + 1 ≤ 2 ^ 61) :
+    (hr : powerOfOneOverFive[j]? = some r) (hs : powerOfOneOverFiveShift[j]? = some s) (hi : i + 1 ≤ 2 ^ 62) :
     NegInv (b * r / 2 ^ 64) (T * 2 ^ s) (P * 5 ^ j) (i + 1) := by
   have hf := recipFacts_all j hj1 hj
   unfold recipFacts at hf
@@ -99,12 +99,12 @@ theorem NegInv.step {b T P i : Nat} (h : NegInv b T P i) (j r s : Nat) (hj1 : 1 
   simp only [Bool.and_eq_true, decide_eq_true_eq] at hf
   obtain ⟨⟨⟨⟨_, f2⟩, f3⟩, f4⟩, f5⟩ := hf
   obtain ⟨h1, h2⟩ := h
-  have := neg_step b r (2 ^ 64) (2 ^ 64 * 2 ^ s) (5 ^ j) P T i (2 ^ s) (2 ^ 62) (2 ^ 61) (Nat.pow_pos (by decide)) rfl f2
+  have := neg_step b r (2 ^ 64) (2 ^ 64 * 2 ^ s) (5 ^ j) P T i (2 ^ s) (2 ^ 63) (2 ^ 62) (Nat.pow_pos (by decide)) rfl f2
     f3 f4 f5 (by decide) hi (Nat.pow_pos (by decide)) h1 h2
   exact ⟨by simpa [Nat.add_assoc] using this.1, by simpa [Nat.add_assoc] using this.2⟩
 
 theorem negIter_inv (r27 s27 : Nat) (hr : powerOfOneOverFive[27]? = some r27) (hs : powerOfOneOverFiveShift[27]? = some s27)
-    (n : Nat) : ∀ (b T P i : Nat), NegInv b T P i → i + n ≤ 2 ^ 61 →
+    (n : Nat) : ∀ (b T P i : Nat), NegInv b T P i → i + n ≤ 2 ^ 62 →
       NegInv (negIter r27 n b) (T * 2 ^ (s27 * n)) (P * 5 ^ (27 * n)) (i + n) := by
   induction n with
   | zero => intro b T P i h _; simpa [negIter] using h
@@ -125,12 +125,12 @@ theorem add32_eq' (a b : Nat) (h : a + b < 2 ^ 32) : add32 a b = a + b := by
 
 /-- **Error bound of the reciprocal pipeline.** For a 64-bit mantissa and `x ≤ 2^20`:
 `negScale num x = (b, x + 64 + S)` where, with `k ≤ x/27 + 1` the number of multiply-shift steps,
-`b·5^x` is at most a relative `k·2^-61` above `num·2^(64+S)` and at most `k` units of `b` plus a
-relative `k·2^-61` below it. (`num·2^(64+S)/5^x` is the exact value the code aims at.) -/
+`b·5^x` is at most a relative `k·2^-62` above `num·2^(64+S)` and at most `k` units of `b` plus a
+relative `k·2^-62` below it. (`num·2^(64+S)/5^x` is the exact value the code aims at.) -/
 theorem negScale_error (num x : Nat) (hn : num < 2 ^ 64) (hx : x ≤ 2 ^ 20) :
     ∃ b S k, negScale num x = some (b, x + 64 + S) ∧ k ≤ x / 27 + 1 ∧ S ≤ 64 * (x / 27 + 1) ∧
-      b * 5 ^ x * 2 ^ 61 ≤ num * 2 ^ (64 + S) * (2 ^ 61 + k) ∧
-      num * 2 ^ (64 + S) * 2 ^ 61 ≤ (b + k) * 5 ^ x * (2 ^ 61 + k) := by
+      b * 5 ^ x * 2 ^ 62 ≤ num * 2 ^ (64 + S) * (2 ^ 62 + k) ∧
+      num * 2 ^ (64 + S) * 2 ^ 62 ≤ (b + k) * 5 ^ x * (2 ^ 62 + k) := by
   obtain ⟨r27, s27, hr27, hs27, hcases⟩ := negScale_closed num x hn
   have hs27v : s27 = 62 := by
     have : powerOfOneOverFiveShift[27]? = some 62 := by decide
